@@ -215,8 +215,9 @@ def gen(rng: Rng, tier, i):
                                       {"dataset": {"descan_shifts_constant": True},
                                        "object": {"tv_weight_xy": 1e-3}}])
     ops = [{"op": "recon", "n": rng.pick([0, 1, 2, 3, 4])}]
-    if rng.fork("long").chance(0.04):      # something that only matters after many iterations
-        ops[0]["n"] = rng.fork("long").pick([12, 30, 60, 110])
+    lng = rng.fork("long")
+    if lng.chance(0.04):      # something that only matters after many iterations
+        ops[0]["n"] = lng.pick([12, 30, 60, 110])
     for j in range(rng.pick([2, 3, 4, 5])):
         r = rng.fork(("op", j))
         k = r.weighted([("recon", 4), ("reload", 4), ("clone", 2), ("clone_fallback", 1),
